@@ -56,6 +56,13 @@ def catalogue(tier: str):
     C.append(spec(
         'foo-2-seq-f2', 2, {'P1': 'foo[2] => bar\nfoo[-P1] => foo'},
         [absout('foo', 2, {'bar': pts(2)})]))
+    # two different outputs of one absolute parent instance
+    C.append(spec(
+        'r1-two-outputs-f2', 2,
+        {'R1': 's',
+         'P1': 'a[-P1] => a\ns[^]:start & a => e\ns[^] & a => l'},
+        [absout('s', 1, {'e': pts(2)}, output='started'),
+         absout('s', 1, {'l': pts(2)})], scheduling=RA0))
     if tier == 'thorough':
         C.append(spec(
             'foo-init-f2', 2, {'P1': 'foo[^] => bar\nfoo'},
